@@ -117,6 +117,11 @@ impl Shared {
                         let o = mv.off % m.len();
                         m[o] ^= 1 << (mv.bit % 8);
                     }
+                    "corrupttail" => {
+                        // a byte among the last 16 (the AEAD tag of the identity payload)
+                        let o = m.len() - 1 - (mv.off % 16);
+                        m[o] ^= 1 << (mv.bit % 8);
+                    }
                     "truncadj" => {
                         let n = mv.n.max(1).min(len);
                         m.truncate(2 + len - n);
